@@ -1,6 +1,6 @@
 """C17 -- dual tables report each multiplier at the pair of points it belongs to."""
 import ast
-from ..model import AnalysisError, src, loc, call_name, dotted, params_of, norm_stmt, is_const, get_arg, qualname
+from ..model import AnalysisError, src, loc, call_name, dotted, params_of, norm_stmt, is_const, get_arg, qualname, anon_src
 from .. import flow
 from .. import classes as K
 from . import formula, common
@@ -184,7 +184,7 @@ def r_tabletype(ctx):
                         is_df = any(isinstance(d.value, ast.Call) and call_name(d.value) == "DataFrame" for d in flow.stmts_of(fn, ast.Assign) if dotted(d.targets[0]) == v.id)
                     elif isinstance(v, ast.Call) and call_name(v) == "DataFrame":
                         is_df = True
-                    key = "%s.%s::tables_of_constraints[%s]" % (c.name, fn.name, src(t.slice))
+                    key = "%s.%s::tables_of_constraints[%s]" % (c.name, fn.name, anon_src(t.slice))
                     ctx.ob("R-TABLETYPE", key, is_df, "stores a DataFrame (what the reader iterates with iterrows / columns / index)" if is_df else
                            "stores `%s`, not a DataFrame: get_class_constraints_duals() calls .iterrows() on it and fails" % src(v)[:60], loc(fn, s))
                     alias = isinstance(v, ast.BinOp) and isinstance(v.op, ast.Mult) and any(isinstance(x, ast.List) and any(isinstance(e, (ast.List, ast.Dict)) for e in x.elts) for x in (v.left, v.right))
